@@ -63,7 +63,10 @@ func c15Check(cs c15Case, inferOut, formatted string, exit int, stderr string) (
 	}
 	for i := range bf {
 		for side := 0; side < 2; side++ {
-			orig, got, other := bf[i][side], bo[i][side], bf[i][1-side]
+			// "differs from the other account of the same booking": the other account as it
+			// stands in the result (with the placeholder on both sides that is the account
+			// inferred for the other side)
+			orig, got, other := bf[i][side], bo[i][side], bo[i][1-side]
 			if orig != cs.Placeholder {
 				if got != orig {
 					return "C15:non-placeholder-account-changed", fmt.Sprintf("booking %d: account %q became %q", i, orig, got)
